@@ -537,7 +537,7 @@ def run(pid, tier, seed, res, p_sub=None, p_flag=None, only=None):
                         if inputs_ and args:
                             # keyword arguments are refused
                             kwn_ = prog["params"][0]["name"]
-                            st_ = tz.run_controlled(lambda: d_(*list(args)[1:], **{kwn_: args[0]}) if False else d_(**{kwn_: args[0]}), tz.Ctl(free_run=True), is_async=is_async)
+                            st_ = tz.run_controlled(lambda: d_(**{kwn_: args[0]}), tz.Ctl(free_run=True), is_async=is_async)
                             if not (st_[0] == "raise" and type(st_[1]).__name__ == "TawaziUsageError"):
                                 res.hit("C01", "monitor", "a call with a keyword argument gave %r instead of TawaziUsageError" % (st_,), dict(base, kind="monitor"))
                         where.append(("bind", pi, ai, r, dict(expect=[0], show=["<too many arguments>"]), base))
